@@ -110,6 +110,9 @@ var (
 	logoutTrust  []string
 	// the SP pins the IdP by certificate fingerprint instead of taking certificates from metadata
 	logoutFingerprint bool
+	// an incomplete or contradictory pin (fingerprint without algorithm, algorithm without fingerprint, either with a pinned
+	// certificate as well): the SP has no usable trust configuration, so no signature verifies
+	logoutPartialPin string
 )
 
 func (c *Ctx) runLogout(l lresp, encoding string, delay int64) {
@@ -130,6 +133,24 @@ func (c *Ctx) runLogout(l lresp, encoding string, delay int64) {
 		}
 		fp, alg := strings.Join(parts, ":"), "http://www.w3.org/2001/04/xmlenc#sha256"
 		s.IDPCertificateFingerprint, s.IDPCertificateFingerprintAlgorithm = &fp, &alg
+	}
+	if logoutPartialPin != "" {
+		sum := sha256.Sum256(c.key("idp2").Cert.Raw) // the pin names a certificate the metadata does not list first
+		var parts []string
+		for _, b := range sum {
+			parts = append(parts, fmt.Sprintf("%02X", b))
+		}
+		fp, alg := strings.Join(parts, ":"), "http://www.w3.org/2001/04/xmlenc#sha256"
+		pem := base64.StdEncoding.EncodeToString(c.key("idp").Cert.Raw)
+		if strings.Contains(logoutPartialPin, "fp") {
+			s.IDPCertificateFingerprint = &fp
+		}
+		if strings.Contains(logoutPartialPin, "alg") {
+			s.IDPCertificateFingerprintAlgorithm = &alg
+		}
+		if strings.Contains(logoutPartialPin, "cert") {
+			s.IDPCertificate = &pem
+		}
 	}
 	if logoutShared != nil {
 		// the deployment refreshes the IdP's metadata (same entity, possibly new keys) on the value it keeps
@@ -182,6 +203,9 @@ func (c *Ctx) runLogout(l lresp, encoding string, delay int64) {
 				sigst = "v"
 			}
 		}
+	}
+	if logoutPartialPin != "" && sigst == "v" {
+		sigst = "i"
 	}
 	switch {
 	case l.Kind == "garbage-b64" || l.Kind == "garbage-xml" || l.Kind == "xrv" || (l.Kind == "inflate-garbage" && strings.Contains(encoding, "redirect")):
@@ -333,5 +357,18 @@ func (c *Ctx) genC18() {
 		}
 	}
 	logoutFingerprint = false
+	// unusable pins: nothing is trusted, whoever signed
+	for _, pin := range []string{"fp", "alg", "fp+cert", "alg+cert", "fp+alg+cert"} {
+		logoutPartialPin = pin
+		for _, sg := range []string{"idp", "idp2", "attacker", "none", "idp+attackercert"} {
+			for _, e := range encs {
+				l := base()
+				l.Sig = sg
+				c.count("c18-partial-pin", pin+"/"+sg)
+				c.runLogout(l, e, delay)
+			}
+		}
+	}
+	logoutPartialPin = ""
 	_ = etree.NewDocument
 }
